@@ -99,8 +99,12 @@ func withUsage(r *core.CaseResult, id string) func() {
 	gq.Usage = func(what string) {
 		kind := "re-exec"
 		switch {
+		case strings.Contains(what, "Prepare") && strings.Contains(what, "changed the document"):
+			kind = "prepare-path-modifies-document"
 		case strings.Contains(what, "changed the document"):
 			kind = "result-aliases-document"
+		case strings.Contains(what, "already used for another document"):
+			kind = "options-reused"
 		case strings.Contains(what, "Parse + Prepare"):
 			kind = "prepare-path"
 		case strings.Contains(what, "panic during"):
